@@ -28,3 +28,28 @@ def run_jobs(jobs):
 def trusted_contracts(registry_factory):
     reg = registry_factory()
     return ['%s (contract assumed, body not verified: %s)' % (q, c.note) for q, c in reg.contracts.items() if not c.verify]
+
+
+def native_ob(oid, function, fn, bound, backend='native runs of the real code against an independent oracle (CPython)'):
+    """a bounded native stand-in as an obligation (labelled bounded; never counted as proved)"""
+    import time
+    import traceback
+    from ..common import Ob
+    t0 = time.time()
+    try:
+        n, wit = fn()
+        err = None
+    except Exception as e:
+        n, wit, err = 0, None, '%s: %s\n%s' % (type(e).__name__, e, traceback.format_exc()[-600:])
+    if err is not None:
+        return Ob(oid, function, 'post', 'undecided', backend, round(time.time() - t0, 2), detail=err, site=function, bounded=bound,
+                  engine='E5-bounded', replay_note='the native harness itself failed: ' + err[:200])
+    return Ob(oid, function, 'post', 'bounded-refuted' if wit else 'bounded-ok', backend, round(time.time() - t0, 2),
+              detail=(str(wit.get('observed')) if wit else ''), site=function, bounded='%s (%d cases)' % (bound, n), witness=wit,
+              replayed=True if wit else None, engine='E5-bounded', replay_note='%d cases run' % n)
+
+
+def native_replayer(ob):
+    if ob.witness and ob.engine in ('E5-bounded', 'E3'):
+        return dict(failure_exhibited=True, how='the real code was run on this input and compared with an independent oracle', input=ob.witness)
+    return None
